@@ -201,7 +201,7 @@ pub fn build(p: CP) -> Scenario<Arc<CS>> {
     };
     Scenario {
         name: p.name.to_string(),
-        opts: Opts { stale_reads: false, stale_depth: 2, max_spurious: 0, horizon: 60_000, log_ops: false, log_handler_ops: false, reduce: false, no_discipline: false },
+        opts: Opts { stale_reads: false, stale_depth: 2, max_spurious: 0, horizon: 60_000, log_ops: false, log_handler_ops: false, reduce: false, no_discipline: false, nest_value_t1: 0 },
         signals: vec![S1, S2],
         setup: Box::new(setup),
         threads: vec![m, d],
@@ -219,7 +219,7 @@ pub fn scenarios(tier: Tier) -> Vec<Item> {
     //  SignalOnly store + wake                                                        = 2
     //  2 x (channel pointer load + send [2 loads + 2 CAS] + wake)                     = 12
     // flags / conditional shutdown / conditional default use the caller's plain atomics (0).
-    let steps = 8 + 3 + 2 + 12;
+    let steps = 8 + 3 + 2 + 14; // (+1 cell access point per channel send)
     let mut v = Vec::new();
     for (mi, mname) in ["registry", "iter_new_add_drop", "scans_and_recv", "instance_drop"].iter().enumerate() {
         for full in [false, true] {
